@@ -156,6 +156,28 @@ class JumpToStageHandler(StabilizeHandler[JumpToStage]):
                 )
                 return
 
+            # A jump is only applied while its source stage is still live. Once the
+            # workflow was cancelled / has finished, or another worker completed the
+            # source stage (CancelStage, a failure), re-arming or closing stages would
+            # overwrite a final status.
+            if execution.is_canceled or execution.status.is_complete or source_stage.status.is_complete:
+                logger.info(
+                    "Ignoring JumpToStage from %s to %s - workflow %s (canceled=%s), source stage %s",
+                    source_stage.ref_id,
+                    message.target_stage_ref_id,
+                    execution.status.name,
+                    execution.is_canceled,
+                    source_stage.status.name,
+                )
+                if message.message_id:
+                    with self.repository.transaction(self.queue) as txn:
+                        txn.mark_message_processed(
+                            message_id=message.message_id,
+                            handler_type="JumpToStage",
+                            execution_id=message.execution_id,
+                        )
+                return
+
             # Find target stage by ref_id
             target_stage = execution.stage_by_ref_id(message.target_stage_ref_id)
 
